@@ -72,6 +72,11 @@ pub fn vocab(lang: &str) -> Vec<&'static str> {
             "красивыми", "работающий", "работающими", "программирование", "е\u{308}лка", "Е\u{308}ж", "ме\u{308}д",
             "зеле\u{308}ный", "машина", "машинами", "хорошо", "большой", "большими",
         ],
+        "xk" => vec![
+            "がっこう", "ぱん", "かばん", "ぎんこう", "の", "が", "はし", "ばしょ", "ヴァイオリン", "ウイルス", "ゟ", "ゟり", "か\u{3099}っこう",
+            "は\u{309a}ん", "き\u{3099}んこう", "ウ\u{3099}ァイオリン", "\u{fb2a}לום", "שלום", "ש\u{5c1}לום", "かっこう", "はん", "きんこう", "さくら", "すし",
+            "てんぷら", "とうきょう", "おおさか", "metal", "mailbox", "がくせい", "ぱすた", "ばなな",
+        ],
         "en" => vec![
             "the", "a", "an", "of", "to", "and", "in", "for", "with", "on", "at", "by", "metal", "mailbox", "yellow",
             "detector", "thesaurus", "router", "toothbrush", "batteries", "battery", "university", "universe",
@@ -120,6 +125,8 @@ pub fn hostile(rng: &mut Rng, maxlen: usize) -> String {
 pub fn lower_alphabet(lang: &str) -> Vec<char> {
     if lang == "ru" {
         "абвгдежзиклмнопрстуфхцчшщыэюя".chars().collect()
+    } else if lang == "xk" {
+        "あいうえおかきくけこさしすせそたちつてとなにぬねのはひふへほ".chars().collect()
     } else {
         "abcdefghijklmnopqrstuvwxyz".chars().collect()
     }
@@ -214,7 +221,22 @@ pub fn shaped_title(rng: &mut Rng, lang: &str) -> String {
     let w = pickw(rng);
     let x = pickw(rng);
     let sep = *rng.pick(&[" ", " ", "-", ", "]);
-    match rng.below(9) {
+    match rng.below(12) {
+        9 | 10 | 11 => {
+            // a short first word, a long word that starts like "first word + last word", a very short last word:
+            // "mit hochtoner mitteltoner e", "a room in the apartment p"
+            let listed: Vec<String> = crate::oracle::listed_function_words(lang).into_iter().filter(|f| f.chars().count() <= 4).collect();
+            let a = if !listed.is_empty() && rng.chance(1, 2) { rng.pick(&listed).clone() } else { rand_word(rng, &alpha, 1, 4) };
+            let b = rand_word(rng, &alpha, 1, 2);
+            let glue = if rng.chance(1, 2) { "" } else { "x" };
+            let long = format!("{}{}{}{}", a, glue, b, rand_word(rng, &alpha, 5, 10));
+            let mid = pickw(rng);
+            match rng.below(3) {
+                0 => format!("{a}{s}{mid}{s}{long}{s}{b}", a = a, mid = mid, long = long, b = b, s = sep),
+                1 => format!("{a}{s}{long}{s}{b}", a = a, long = long, b = b, s = sep),
+                _ => format!("{a}{s}{long}{s}{mid}{s}{b}", a = a, mid = mid, long = long, b = b, s = sep),
+            }
+        }
         0 => format!("{w}{s}{w}{s}{w}", w = w, s = sep),
         1 => format!("{w}{s}{x}{s}{w}", w = w, x = x, s = sep),
         2 => format!("{w}{s}{x}{s}{w}{c}", w = w, x = x, s = sep, c = rng.pick(&alpha)),
